@@ -499,6 +499,26 @@ func (tc *testClient) doAsync(cmd uint32, body proto.Message, timeout time.Durat
 	return ch
 }
 
+// doAsyncOpts is doAsync with the caller's own request options (none = the library default timeout).
+func (tc *testClient) doAsyncOpts(cmd uint32, body proto.Message, opts ...client.RequestOption) chan doResult {
+	ch := make(chan doResult, 1)
+	go func() {
+		var r doResult
+		t0 := time.Now()
+		func() {
+			defer func() {
+				if e := recover(); e != nil {
+					r.panic = fmt.Sprint(e)
+				}
+			}()
+			r.pkt, r.err = tc.cli.Do(context.Background(), &client.Request{Cmd: cmd, Body: body}, opts...)
+		}()
+		r.dur = time.Since(t0)
+		ch <- r
+	}()
+	return ch
+}
+
 func awaitDo(ch chan doResult, d time.Duration) (doResult, bool) {
 	select {
 	case r := <-ch:
